@@ -38,6 +38,21 @@ def inline(fn):
     return fn
 
 
+def now(x):
+    """in a postcondition: the object `x` (taken from the pre-state snapshot) as it is in the post-state"""
+    return x
+
+
+def _m_now(I, args, kw):
+    x = args[0]
+    if type(x).__name__ == 'SymObj':
+        from . import heap as H
+        return H.SymObj(x.id, x.schema, None)
+    if isinstance(x, Obj) and getattr(x, 'snapshot_of', None) is not None:
+        return x.snapshot_of
+    return x
+
+
 @spec
 def implies(a, b):
     return (not a) or b
@@ -121,9 +136,29 @@ class Target:
 CVC5 = '/usr/bin/cvc5'
 
 
-def check_unsat(assertions, timeout_ms=10000, want_model=True, seed=0, cvc5_ms=None):
-    """returns (status, backend, model_or_None, seconds); status in unsat|sat|unknown"""
+def _has_quantifier(assertions):
+    for a in assertions:
+        if 'forall' in a.sexpr()[:200000] or 'exists' in a.sexpr()[:200000] or 'lambda' in a.sexpr()[:200000]:
+            return True
+    return False
+
+
+def check_unsat(assertions, timeout_ms=10000, want_model=True, seed=0, cvc5_ms=None, quantified=None):
+    """returns (status, backend, model_or_None, seconds); status in unsat|sat|unknown.
+    Quantified obligations: first E-matching only (MBQI off; only its `unsat` is used), then the default configuration."""
     t0 = time.time()
+    if quantified is None:
+        quantified = _has_quantifier(assertions)
+    if quantified:
+        s = z3.Solver()
+        s.set('auto_config', False)
+        s.set('mbqi', False)
+        s.set('timeout', min(timeout_ms, 5000))
+        s.set('random_seed', seed)
+        for a in assertions:
+            s.add(a)
+        if s.check() == z3.unsat:
+            return 'unsat', 'smt-z3', None, time.time() - t0
     s = z3.Solver()
     s.set('timeout', timeout_ms)
     s.set('random_seed', seed)
@@ -135,6 +170,8 @@ def check_unsat(assertions, timeout_ms=10000, want_model=True, seed=0, cvc5_ms=N
         return 'unsat', 'smt-z3', None, dt
     if r == z3.sat:
         return 'sat', 'smt-z3', s.model(), dt
+    if quantified:
+        return 'unknown', 'none', None, dt  # lambdas/quantified arrays are not portable to the cvc5 text interface
     # fallback: cvc5 on the same SMT-LIB text
     try:
         txt = s.to_smt2()
@@ -205,9 +242,33 @@ def concretise_value(v, model):
         return [concretise_value(x, model) for x in v.items]
     if isinstance(v, SDict):
         return {k: concretise_value(x, model) for k, x in v.items.items()}
+    tn = type(v).__name__
+    if tn == 'SymObj':
+        return _conc_symobj(v, model)
+    if tn == 'SymList':
+        n = model.eval(v.length, model_completion=True).as_long()
+        from . import heap as H
+        return {'__symlist__': [_conc_symobj(H.SymObj(z3.Select(v.elems, k), v.schema, v.heap), model) for k in range(min(n, 40))], 'length': n}
     if isinstance(v, Obj):
         return {'__obj__': v.name, 'fields': {k: concretise_value(x, model) for k, x in v.fields.items() if not callable(x)}}
     return v
+
+
+def _conc_symobj(o, model):
+    from . import heap as H
+    out = {'__symobj__': o.schema.name, 'id': model.eval(o.id, model_completion=True).as_long()}
+    for f, k in o.schema.fields.items():
+        arr = (o.heap or {}).get((o.schema.name, f))
+        if arr is None:
+            arr = z3.Array(f'heap0_{o.schema.name}_{f}', z3.IntSort(), o.schema.sort_of(f))
+        val = model.eval(z3.Select(arr, o.id), model_completion=True)
+        if k == 'int' or isinstance(k, tuple):
+            out[f] = val.as_long()
+        elif k == 'bool':
+            out[f] = z3.is_true(val)
+        else:
+            out[f] = z3str_to_py(val)
+    return out
 
 
 # --------------------------------------------------------------------------- verification of one target
@@ -254,6 +315,7 @@ def verify(t: Target, seed=0, prefixes=None, budget=None, budget_s=None):
         res['undecided'].append(f'stale sidecar: {e}')
         return res
     eng = Engine(models=dict(t.models), inline=set(t.inline))
+    eng.models[now] = Model(_m_now, 'now', assumed=False)
     eng.loop_specs = dict(t.loops)
     globs = vars(mod)
     target_func = Func(node, None, globs, name=t.qualname)
@@ -283,7 +345,7 @@ def verify(t: Target, seed=0, prefixes=None, budget=None, budget_s=None):
                 args = [env[n] for n in names if n in env]
             for rq in t.requires:
                 p.assume(eval_clause(I, rq.fn, env))
-            old = snapshot(env)
+            old = snapshot(env, p)
             env['old'] = old
             env['ghost'] = p.ghost
             try:
@@ -338,7 +400,15 @@ def verify(t: Target, seed=0, prefixes=None, budget=None, budget_s=None):
                 continue  # unreachable path (pruning was inconclusive earlier)
         res['covers'] += 1
         sig = path_sig(p)
+        obligs = []
         for ob in p.obligs:
+            parts = _flatten_and(ob.goal)
+            if len(parts) == 1:
+                obligs.append(ob)
+            else:
+                for i, g in enumerate(parts):
+                    obligs.append(SX.Obligation(f'{ob.name}#{i + 1}', ob.pc, g, ob.line, ob.info))
+        for ob in obligs:
             st, be, model, dt = check_unsat(ob.pc + [z3.Not(ob.goal)], t.timeout_ms, seed=seed, cvc5_ms=t.cvc5_ms)
             res['solver_s'] += dt
             rec = {'name': ob.name, 'path': sig, 'line': ob.line, 'status': {'unsat': 'discharged', 'sat': 'violated', 'unknown': 'unknown'}[st],
@@ -350,6 +420,23 @@ def verify(t: Target, seed=0, prefixes=None, budget=None, budget_s=None):
                 rec['witness'] = replay(t, ob, model, mod)
                 res['violations'].append(rec)
             elif st == 'unknown':
+                cand = None
+                if t.native_call is not None:
+                    try:
+                        cand = find_counterexample(ob.pc, ob.goal)
+                    except z3.Z3Exception:
+                        cand = None
+                if cand is not None:
+                    w = replay(t, ob, cand, mod)
+                    if w.get('replayed'):
+                        # the prover left the obligation open; a bounded search produced an input on which the real
+                        # function violates the clause: this is a violation with a replayed input
+                        w['found_by'] = 'bounded counterexample search after solver unknown'
+                        rec['status'] = 'violated'
+                        rec['witness'] = w
+                        res['violations'].append(rec)
+                        res['obligations'].append(rec)
+                        continue
                 res['undecided'].append(f'solver unknown on {ob.name} path {sig}')
             res['obligations'].append(rec)
     res['assumptions'] = sorted(set(res['assumptions']) | eng.assumptions | {f'assumed callee contract: {m.name}' for m in t.models.values() if m.assumed})
@@ -393,6 +480,91 @@ def known_active(kid):
         from .check import load_known
         _KNOWN = {k for k, e in load_known().items() if e.get('status') == 'known'}
     return kid in _KNOWN
+
+
+def _int_consts(exprs, limit=60):
+    seen, out, stack = set(), [], list(exprs)
+    while stack and len(out) < limit:
+        e = stack.pop()
+        if not z3.is_expr(e) or e.get_id() in seen:
+            continue
+        seen.add(e.get_id())
+        if z3.is_quantifier(e):
+            stack.append(e.body())
+            continue
+        if z3.is_const(e) and e.decl().kind() == z3.Z3_OP_UNINTERPRETED and e.sort() == z3.IntSort():
+            out.append(e)
+        elif z3.is_app(e):
+            stack.extend(e.children())
+    return out
+
+
+def _arrays(exprs):
+    seen, out, stack = set(), [], list(exprs)
+    while stack:
+        e = stack.pop()
+        if not z3.is_expr(e) or e.get_id() in seen:
+            continue
+        seen.add(e.get_id())
+        if z3.is_quantifier(e):
+            stack.append(e.body())
+            continue
+        if z3.is_const(e) and e.decl().kind() == z3.Z3_OP_UNINTERPRETED and z3.is_array(e) and e.sort().domain() == z3.IntSort() and e.sort().range() == z3.IntSort():
+            out.append(e)
+        elif z3.is_app(e):
+            stack.extend(e.children())
+    return out
+
+
+def find_counterexample(pc, goal, timeout_ms=20000, bound=3):
+    """Counterexample SEARCH for a quantified obligation the prover left open: hypotheses' quantifiers are replaced by their
+    instances over a small set of ground terms and the initial list lengths are bounded.  This weakens the hypotheses, so a
+    model found here proves nothing by itself - it is only a candidate that the caller replays on the real code."""
+    base, quants = [], []
+    flat = []
+    for c in pc:
+        flat.extend(_flatten_and(c))
+    for c in flat:
+        if z3.is_quantifier(c) and c.is_forall():
+            quants.append(c)
+        elif z3.is_not(c) and z3.is_quantifier(c.arg(0)) and c.arg(0).is_exists():
+            q = c.arg(0)
+            quants.append(z3.ForAll([z3.Const(q.var_name(i) + '!cx', q.var_sort(i)) for i in range(q.num_vars())],
+                                    z3.Not(z3.substitute_vars(q.body(), *reversed([z3.Const(q.var_name(i) + '!cx', q.var_sort(i)) for i in range(q.num_vars())])))))
+        else:
+            base.append(c)
+    consts = _int_consts(list(pc) + [goal])
+    arrs = _arrays(list(pc) + [goal])
+    terms = [z3.IntVal(v) for v in range(-1, bound + 2)] + consts[:12]
+    for a in arrs[:3]:
+        terms += [z3.Select(a, z3.IntVal(k)) for k in range(0, bound + 1)]
+    inst = []
+    import itertools
+    for q in quants:
+        nv = q.num_vars()
+        if any(q.var_sort(i) != z3.IntSort() for i in range(nv)) or nv > 2:
+            continue
+        dom = terms if nv == 1 else terms[:bound + 3 + 6]
+        for tup in itertools.product(dom, repeat=nv):
+            inst.append(z3.substitute_vars(q.body(), *reversed(tup)))
+    limits = [c <= bound for c in consts if str(c).startswith('nrules0') or str(c).startswith('len0')]
+    s = z3.Solver()
+    s.set('timeout', timeout_ms)
+    for a in base + inst + limits:
+        s.add(a)
+    s.add(z3.Not(goal))
+    if s.check() == z3.sat:
+        return s.model()
+    return None
+
+
+def _flatten_and(g):
+    if z3.is_and(g):
+        out = []
+        for c in g.children():
+            out.extend(_flatten_and(c))
+        return out
+    return [g]
 
 
 def match_raises(t, ecls):
@@ -462,25 +634,42 @@ def refine_uf_model(p, ob, model, timeout_ms, rounds=5):
     return cur
 
 
-def snapshot(env):
+def snapshot(env, p=None):
     out = {}
+    hs = dict(p.heap) if p is not None else None
+    if p is not None:
+        # materialise the initial arrays of every declared field so that snapshot and live heap share them
+        from . import heap as H
+        for sch in H.SCHEMAS.values():
+            for f in sch.fields:
+                H.heap_array(p, sch, f)
+                if sch.fields[f] == 'optstr':
+                    H.heap_array(p, H.Schema(sch.name, {f + '?': 'bool'}), f + '?')
+        hs = dict(p.heap)
     for k, v in env.items():
-        out[k] = snap_value(v)
+        out[k] = snap_value(v, 0, hs)
     return out
 
 
-def snap_value(v, depth=0):
+def snap_value(v, depth=0, hs=None):
+    tn = type(v).__name__
+    if tn == 'SymList':
+        return v.frozen(hs)
+    if tn == 'SymObj':
+        from . import heap as H
+        return H.SymObj(v.id, v.schema, hs)
     if isinstance(v, Obj):
         o = Obj(v.cls, {}, v.name)
+        o.snapshot_of = v
         if depth < 3:
-            o.fields = {k: snap_value(x, depth + 1) for k, x in v.fields.items()}
+            o.fields = {k: snap_value(x, depth + 1, hs) for k, x in v.fields.items()}
         else:
             o.fields = dict(v.fields)
         return o
     if isinstance(v, SList):
-        return SList([snap_value(x, depth + 1) if depth < 3 else x for x in v.items])
+        return SList([snap_value(x, depth + 1, hs) if depth < 3 else x for x in v.items])
     if isinstance(v, SDict):
-        return SDict({k: snap_value(x, depth + 1) if depth < 3 else x for k, x in v.items.items()})
+        return SDict({k: snap_value(x, depth + 1, hs) if depth < 3 else x for k, x in v.items.items()})
     return v
 
 
